@@ -6,6 +6,8 @@ import (
 	"fmt"
 	"go/token"
 	"go/types"
+	"os"
+	"strings"
 )
 
 // sym is a symbolic scalar: a Bool or an integer of basic kind k.
@@ -317,11 +319,28 @@ func (i *interpreter) concretize(s sym) uint64 {
 	w := kindWidth(s.k)
 	for n := 0; ; n++ {
 		if n > 4096 {
-			panic(pathAbort{"unsupported", "concretize: too many values"})
+			panic(pathAbort{"unsupported", "concretize: too many values at " + i.where()})
 		}
 		v := i.hintValue(func() uint64 { return i.evalTerm(s.t) })
 		if i.branchV(i.ts.Cmp(OpEq, s.t, i.ts.Const(w, v)), v) {
 			i.concretisations++
+			if debugOn && strings.Contains(i.where(), "leven") && i.dbgCount < 3 {
+				i.dbgCount++
+				for fr := i.curFrame; fr != nil; fr = fr.caller {
+					ps := ""
+					for _, p := range fr.fn.Params {
+						ps += toString(fr.env[p])[:min(len(toString(fr.env[p])), 60)] + "; "
+					}
+					fmt.Fprintf(os.Stderr, "   frame %s(%s)\n", fr.fn.Name(), ps)
+				}
+				fmt.Fprintf(os.Stderr, "gosx: concretize %s (lifting=%d) at %s\n", s.t.String()[:min(len(s.t.String()), 300)], i.lifting, i.where()[:200])
+			}
+			if debugOn {
+				w := i.where()
+				i.ex.mu.Lock()
+				i.ex.stats.Unsupported["conc@"+w[:min(len(w), 400)]]++
+				i.ex.mu.Unlock()
+			}
 			if kindSigned(s.k) {
 				return uint64(sext(v, w))
 			}
